@@ -179,6 +179,18 @@ for f, (fns, repl) in CALC.items():
                         note="keep/deep calculus: real caller body on a stack of exactly f_deep() octets; callees %s replaced by the "
                              "memory side of their contracts (w_ok(stack, callee_deep(args)) is an obligation at each call site)"
                              % ", ".join(a for a, b in repl)))
+# states of exactly f_keep() octets: the C10 chunking harnesses and the FMT round trip allocate every state at its exact size,
+# so their native (ASan) runs are memory-safety runs for this property as well
+def _load(name):
+    sp = importlib.util.spec_from_file_location("plan_%s_for_C07" % name, os.path.join(os.path.dirname(__file__), name + ".py"))
+    m = importlib.util.module_from_spec(sp); sp.loader.exec_module(m); return m
+_c10, _c01 = _load("C10"), _load("C01")
+for g in _c10.GROUPS:
+    if g["backend"] == "native" and (".x1." in g["name"] or ".x16." in g["name"] or ".x17." in g["name"]):
+        g2 = dict(g); g2["name"] = "keep." + g["name"]; GROUPS.append(g2)
+for g in _c01.GROUPS:
+    if g["name"].startswith(("fmt.roundtrip", "modes.dwp.i21", "modes.dwp.i5.cnt20.search")):
+        g2 = dict(g); g2["name"] = "keep." + g["name"]; GROUPS.append(g2)
 # the zz_add.c contracts (defined in the C05 plan) belong to this property as well
 GROUPS += [g for g in _c05.GROUPS if g["name"].startswith("contract.zz_add")]
 TRUSTED = []
